@@ -17,6 +17,7 @@ repo, outdir = sys.argv[1], sys.argv[2]
 ALLOW = [
     # (file suffix, regex on the line, reason)
     ("val/dis_macro.rs", r"caps\.get\(0\)\.unwrap\(\)", "capture group 0 (the whole match) always exists"),
+    ("val/dis_macro.rs", r"&?caps\[0\]", "capture group 0 (the whole match) always exists: `Captures[0]` cannot fail"),
     ("val/dis_macro.rs", r"^\s*\.unwrap\(\)\s*$", "Regex::new on a constant pattern that compiles (exercised on every run)"),
 ]
 
@@ -39,11 +40,12 @@ def region(path, start_pat=None, end_pat=None):
         if not active and start_pat and re.search(start_pat, l):
             active = True
             depth = 0
+            first = len(out)
         if active:
             out.append((i, l))
             if start_pat:
                 depth += l.count("{") - l.count("}")
-                if depth <= 0 and "}" in l and len(out) > 1:
+                if depth <= 0 and "}" in l and len(out) - first > 1:
                     active = False
     return out
 
@@ -52,7 +54,7 @@ targets = [
     ("src/haystack/encoding/json/encode.rs", None),
     ("src/haystack/val/value.rs", r"^impl Display for Value"),
     ("src/haystack/val/dict.rs", r"^pub fn dict_to_dis"),
-    ("src/haystack/val/dict.rs", r"^fn decode_str_from_value"),
+    ("src/haystack/val/dict.rs", r"^fn \w+"),          # every private free function of dict.rs (the helpers of dict_to_dis)
     ("src/haystack/val/dis_macro.rs", None),
 ]
 
@@ -68,6 +70,8 @@ sites, guarded, allowed = [], [], []
 n_scanned = 0
 for path, start in targets:
     reg = region(path, start)
+    if not reg and start is not None and start.startswith("^fn "):
+        continue        # no private helper in the file: nothing of that kind to scan
     if not reg:
         sys.exit(f"panic_sites: nothing to scan in {path} ({start})")
     n_scanned += len(reg)
